@@ -271,7 +271,7 @@ def c09_bridge(tier, seed):
         texts.append("".join(rnd.choice(alphabet) for _ in range(rnd.randint(0, 12))))
     styles = [";", "(", "[", "{", "<", '"', "'", "/*", "#", "//"]
     def program(g, t):
-        g.comment(t); g.comment(t, 1, "x"); g.annotate("key", t); g.move(x=1, y=2.5, comment=t); g.rapid(z=3, comment=t)
+        g.comment(t); g.comment(t, 1, "x"); g.comment("note", t, 5); g.annotate("key", t); g.move(x=1, y=2.5, comment=t); g.rapid(z=3, comment=t)
         g.set_axis(x=0, comment=t); g.move_absolute(x=4, comment=t); g.probe("towards", z=-1, comment=t); g.auto_home(comment=t)
         g.emergency_halt(t)
     bad, cases = [], 0
@@ -510,6 +510,20 @@ def c19_maps(tier, seed):
             want = sc * float(np.float32(img[cy, cx] / mx))
             got = m.get_depth_at(cx, cy)
             if abs(got - want) > 1e-4 * max(1.0, abs(want)): bad.append({"map": "raster", "why": "not scale x stored height at pixel (x = column, y = row)", "x": cx, "y": cy, "want": want, "got": float(got), "shape": [hgt, wid]}); break
+        if i % 4 == 0:            # the same image through from_path (file on disk, 8 or 16 bit): the loader must keep the bit depth
+            import cv2, tempfile
+            root_ = os.path.dirname(os.path.dirname(os.path.abspath(__file__)))
+            fd, pth = tempfile.mkstemp(suffix=".png", dir=os.environ.get("TMPDIR", os.path.join(root_, ".tmp"))); os.close(fd)
+            try:
+                cv2.imwrite(pth, img)
+                m2 = RasterHeightMap.from_path(pth); m2.set_scale(sc); cases += 1
+                cx, cy = rnd.randrange(wid), rnd.randrange(hgt)
+                want = sc * float(np.float32(img[cy, cx] / mx))
+                if abs(m2.get_depth_at(cx, cy) - want) > 1e-4 * max(1.0, abs(want)):
+                    bad.append({"map": "raster(from_path)", "why": "a map loaded from an image file does not return scale x stored height", "bits": 16 if bits16 else 8, "x": cx, "y": cy, "want": want, "got": float(m2.get_depth_at(cx, cy))})
+            finally:
+                os.unlink(pth)
+            if bad: break
         for (qx, qy) in [(-0.5, 1), (wid, 1), (1, -1e-9), (1, hgt), (wid + 3, hgt + 3)]:
             cases += 1
             if m.get_depth_at(qx, qy) != 0.0: bad.append({"map": "raster", "why": "non-zero outside the image", "x": qx, "y": qy}); break
